@@ -23,7 +23,7 @@ import (
 const (
 	ckPath   = "checkpoints"
 	spPath   = "savepoints"
-	watchdog = 5 * time.Second
+	watchdog = 3 * time.Second
 	// a store call that waits for a parked storage operation (storage touched under the store's lock)
 	callWatchdog = time.Second
 )
